@@ -2,6 +2,7 @@ open Model
 open Conv
 open Sexp
 open Common
+type string = Stdlib.String.t
 
 (* ---------- handlers ---------- *)
 
